@@ -56,11 +56,14 @@ package sync
 //@   assume distinct(lp) -- representation invariant of LockPile: a lock has one entry (insert only appends locks that are not in the pile: proved; Unlock removes whole entries)
 //@   assume forall j int :: 0 <= j && j < len(*lp) ==> uf("heldatentry", (*lp)[j].lock) == 1 -- representation invariant of LockPile: every lock in the pile is held once by the calling thread (every-pile-lock-is-held-on-return, proved for Lock)
 //@   assume forall l TryLocker :: uf("heldatentry", l) == 0 || (exists j int :: 0 <= j && j < len(*lp) && (*lp)[j].lock == l) -- client discipline: the calling thread holds no lock of this kind outside its pile
+//@   loop 0 exhaustive
 //@   loop 0 invariant distinct(lp) && len(*lp) >= old(len(*lp)) && (forall j int :: 0 <= j && j < old(len(*lp)) ==> (*lp)[j].lock == old((*lp)[j].lock))
+//@   loop 1 exhaustive
 //@   loop 1 lockvariant
 //@   loop 1 invariant 0 <= currentlyAcquired && currentlyAcquired <= len(*lp) && distinct(lp)
 //@   loop 1 invariant forall j int :: 0 <= j && j < currentlyAcquired ==> nowheld((*lp)[j].lock) == 1
 //@   loop 1 invariant forall j int :: currentlyAcquired <= j && j < len(*lp) ==> nowheld((*lp)[j].lock) == 0
+//@   loop 2 exhaustive
 //@   loop 2 lockvariant
 //@   loop 2 invariant 0 <= i && i <= currentlyAcquired && currentlyAcquired < len(*lp) && distinct(lp)
 //@   loop 2 invariant forall j int :: 0 <= j && j < i ==> nowheld((*lp)[j].lock) == 0
@@ -82,6 +85,7 @@ package sync
 //@   ensures_assumed forall l TryLocker :: held(l) == old(held(l)) - b2i(l == oldLock && old(pile[lp][l]) == 1) -- abstract view of LockPile, as above; the concrete counterparts below are proved
 //@   assume distinct(lp) -- representation invariant of LockPile (see Lock)
 //@   assume forall j int :: 0 <= j && j < len(*lp) ==> uf("heldatentry", (*lp)[j].lock) == 1 -- representation invariant of LockPile (see Lock)
+//@   loop 0 exhaustive
 //@   loop 0 invariant 0 <= i && (forall j int :: 0 <= j && j < i && j < len(*lp) ==> (*lp)[j].lock != oldLock)
 //@   at call TryLocker).Unlock#1 assert releases-the-requested-lock-and-only-when-not-held-recursively: arg0 == oldLock && old((*lp)[i].recursion) <= 0
 //@   ensures a-recursive-unlock-releases-nothing: len(*lp) == old(len(*lp)) ==> (forall l TryLocker :: held(l) == old(held(l))) && (forall j int :: 0 <= j && j < len(*lp) ==> (*lp)[j].lock == old((*lp)[j].lock))
@@ -101,6 +105,7 @@ package sync
 //@   ensures_assumed forall l TryLocker :: held(l) == old(held(l)) - b2i(old(pile[lp][l]) > 0) -- abstract view of LockPile, as above; the concrete counterpart every-pile-lock-is-released-once is proved
 //@   assume distinct(lp) -- representation invariant of LockPile (see Lock)
 //@   assume forall j int :: 0 <= j && j < len(*lp) ==> uf("heldatentry", (*lp)[j].lock) == 1 -- representation invariant of LockPile (see Lock)
+//@   loop 0 exhaustive
 //@   loop 0 lockvariant
 //@   loop 0 invariant rangeindex >= -1 && rangeindex < len(*lp) && distinct(lp)
 //@   loop 0 invariant forall j int :: 0 <= j && j <= rangeindex ==> nowheld((*lp)[j].lock) == 0
